@@ -159,6 +159,9 @@ def rule_b(ctx):
 def rule_d(ctx):
     # shared with C14.d: write_view < write_operation < write_index < UnpublishedOperation::new
     C14.rule_d(ctx)
+    # shared with C14.a: the new op head exists before any old head is removed (a crash in between must not leave
+    # the heads directory empty: the repository would not load)
+    C14.rule_a(ctx)
 
 
 def rule_e(ctx):
